@@ -338,11 +338,55 @@ func c10Good(c *Ctx, idx int) {
 	if cfg.SharedURL {
 		c.Ev.Count("good_configs_shared_url_distinct_dial_addr", 1)
 	}
+	// the UDP probes of every other configuration leave one socket back to back (a burst: the
+	// listener's read loop and its workers overlap); each is judged like a probe sent alone
+	burst := map[*probe][]byte{}
+	burstSent := map[*probe]bool{}
+	if idx%2 == 0 {
+		if uc, e := dnsclient.DialUDP("", lu); e == nil {
+			byID := map[uint16]*probe{}
+			id := uint16(r.Intn(30000))
+			for _, pr := range probes {
+				if pr.viaTCP {
+					continue
+				}
+				id++
+				byID[id] = pr
+				burstSent[pr] = true
+				uc.Send(mkQuery(id, pr.name, pr.qtype, pr.class, r.Bool()))
+			}
+			dl := time.Now().Add(4 * time.Second)
+			for time.Now().Before(dl) && len(uc.Received()) < len(byID) {
+				time.Sleep(2 * time.Millisecond)
+			}
+			time.Sleep(30 * time.Millisecond) // anything that comes twice
+			for _, p := range uc.Received() {
+				if len(p.Data) < 2 {
+					continue
+				}
+				pr := byID[uint16(p.Data[0])<<8|uint16(p.Data[1])]
+				if pr == nil {
+					continue
+				}
+				if _, twice := burst[pr]; twice {
+					c.Violation("burst:answered-twice", fmt.Sprintf("probe %s of a burst of %d UDP queries got two responses", pr.name, len(byID)), map[string]any{"yaml": cfg.yaml(dir, upAddr, lu, lt), "probe": pr.name})
+				}
+				burst[pr] = p.Data
+			}
+			uc.Close()
+			c.Ev.Count("burst_probes_sent", int64(len(byID)))
+		}
+	}
 	for _, pr := range probes {
 		wire := mkQuery(uint16(r.Intn(65536)), pr.name, pr.qtype, pr.class, r.Bool())
 		var resp []byte
 		var err error
-		if pr.viaTCP {
+		if burstSent[pr] {
+			if resp = burst[pr]; resp == nil {
+				c.Inconclusive("burst: no response for " + pr.name + " (datagram lost?)")
+				continue
+			}
+		} else if pr.viaTCP {
 			sc, e := dnsclient.DialStream("", lt, nil)
 			if e != nil {
 				c.Inconclusive("dial tcp: " + e.Error())
